@@ -151,3 +151,15 @@ SEEDS = [
 		}
 		for i := uint32(fs.fatSecondaryStart >> 40) + 2; i < maxCluster && len(allocated) < extraCount; i++ {""")]},
 ]
+
+# --- third session
+SEEDS += [
+ {"name": "c01-scan-starts-after-chain-end", "properties": ["C01"], "expect": "C01-d|",
+  "edits": [e(F, "		for i := uint32(2); i < maxCluster && len(allocated) < extraCount; i++ {", "		for i := previous + 2; i < maxCluster && len(allocated) < extraCount; i++ {")]},
+ {"name": "c08-refused-create-keeps-cluster", "properties": ["C08"], "expect": "C08-i|",
+  "edits": [e(F, "			if ferr := fs.freeClusterChain(targetEntry.clusterLocation); ferr != nil {\n				return nil, fmt.Errorf(\"error writing directory file %s to disk: %w (releasing its cluster failed as well: %v)\", p, err, ferr)\n			}\n", "")]},
+ {"name": "c08-fat12-bytes-reuses-buffer", "properties": ["C08"], "expect": "C08-h|",
+  "edits": [e("filesystem/fat12/table.go", "func (t *fat12Table) Bytes() []byte {\n	b := make([]byte, t.size)", "var fat12Scratch []byte\n\nfunc (t *fat12Table) Bytes() []byte {\n	if uint32(len(fat12Scratch)) != t.size {\n		fat12Scratch = make([]byte, t.size)\n	}\n	b := fat12Scratch")]},
+ {"name": "c08-fsinfo-offset-literal-512", "properties": ["C08"], "expect": "C08-g|",
+  "edits": [e("filesystem/fat32/fat32.go", "	fsisPrimary := int64(bpb.fsInformationSector) * bps", "	fsisPrimary := int64(bpb.fsInformationSector) * 512")]},
+]
